@@ -352,6 +352,7 @@ def check_switch_history(arg):
 
 
 def main(chk):
+    chk.prove(["c_listops"])
     t0 = time.time()
     hcases = [(p, sw, v, pre) for p in ("ios", "nxos") for sw in ("port_nr", "protocol_nr") for v in (True, False)
               for pre in (("switch", "insert"), ("insert",), ("other", "switch", "insert"), ("switch", "pop-insert"), ("switch", "insert", "insert"), ("other", "insert"))]
@@ -403,7 +404,8 @@ def main(chk):
                     "sequences of 3..8 operations", viol, time.time() - t0, [list(cases[321][2])], exhaustive=False)
     chk.assumptions += ["the inductive argument (every operation satisfies its model from every consistent state => every history does) is checked only on the enumerated "
                         "states; whole-history properties are outside contract-based deduction", "the memo part of the consistency invariant is proved in C05"]
-    return chk.finish("other", "Bounded only: per-operation contracts View' == Model_op(View) from all states reached by short sequences, with an independent reader.",
+    return chk.finish("other", "Deductive (list layer only): Group.append / reverse / clear / __len__ act on the item list exactly as the model's list operations (item last, positions mirrored, nothing left; every other position kept). "
+                      "Bounded (labelled): per-operation contracts View' == Model_op(View) from all states reached by short sequences, with an independent reader.",
                       trusted_base=["spec/cisco_ref.py", "spec/sets.py", "the reference model in props/C17.py"])
 
 
